@@ -76,6 +76,9 @@ func runC34(p *Prog, r *Result) {
 	info := pkg.TypesInfo
 	r.Rule("R34a", "every sort in listEnviron_ is a stable sort and one precedes the duplicate-elimination loop", 1)
 	r.Rule("R34b", "names are ordered only through listEnviron.compare in listEnviron_ and listEnviron.Get", 3)
+	r.Rule("R34d", "every path of listEnviron_ that stores the pairs has passed the stable sort and the duplicate-elimination loop", 1)
+	r.Rule("R34e", "listEnviron_ sorts and cuts a copy of the caller's slice", 1)
+	checkListEnvironPaths(p, r)
 	r.Rule("R34c", "dedup removes the earlier duplicate and invalid pairs; Each is a read-only in-order range; funcEnviron.Get maps \"\" to the zero Variable", 5)
 
 	le := p.FuncDecl("expand", "listEnviron_")
@@ -319,6 +322,10 @@ func exprStringNode(n ast.Node) string {
 }
 
 var c34Controls = []Control{
+	{Name: "sorted-input-shortcut", Rule: "R34d", WantKey: "pairs stored only after the sort", File: "expand/environ.go",
+		Mutate: ctlReplaceAnywhere("\tenv := listEnviron{caseInsensitive: caseInsensitive}\n\tslices.SortStableFunc(", "\tenv := listEnviron{caseInsensitive: caseInsensitive}\n\tif slices.IsSorted(list) {\n\t\tenv.pairs = list\n\t\treturn env\n\t}\n\tslices.SortStableFunc(")},
+	{Name: "sorts-the-callers-slice", Rule: "R34e", WantKey: "sorts and cuts a copy", File: "expand/environ.go",
+		Mutate: ctlReplaceAnywhere("\tlist := slices.Clone(pairs)\n\tenv := listEnviron{", "\tlist := pairs\n\tenv := listEnviron{")},
 	{Name: "unstable-sort", Rule: "R34a", WantKey: "slices.SortFunc", File: "expand/environ.go",
 		Mutate: ctlReplace("listEnviron_", "slices.SortStableFunc", "slices.SortFunc", 0)},
 	{Name: "dedup-direct-compare", Rule: "R34b", WantKey: "listEnviron_#orders names only via compare", File: "expand/environ.go",
